@@ -56,6 +56,10 @@ func init() {
 		c14replies["stream-error/"+cnd] = "<stream:error xmlns:stream='http://etherx.jabber.org/streams'><" + cnd + " xmlns='urn:ietf:params:xml:ns:xmpp-streams'/></stream:error>"
 		c14otherReplies = append(c14otherReplies, "stream-error/"+cnd)
 	}
+	// success with additional data (RFC 6120 6.4.6): "=" is zero-length data
+	c14replies["success-data-empty"] = "<success xmlns='urn:ietf:params:xml:ns:xmpp-sasl'>=</success>"
+	c14replies["success-data"] = "<success xmlns='urn:ietf:params:xml:ns:xmpp-sasl'>dj1ybUY5cHFWOFM3c3VBb1pXamE0ZEpSa0ZzS1E9</success>"
+	c14otherReplies = append(c14otherReplies, "success-data-empty", "success-data")
 	c14replies["stream-error-empty"] = "<stream:error xmlns:stream='http://etherx.jabber.org/streams'/>"
 	c14replies["stream-close"] = "</stream:stream>"
 	c14replies["iq-result"] = "<iq xmlns='jabber:client' type='result' id='x'/>"
@@ -210,7 +214,7 @@ func c14direct(c *hx.Ctx, user, secret string, cred Credential, offered []string
 		return
 	}
 	switch reply {
-	case "success":
+	case "success", "success-data-empty", "success-data":
 		if err != nil {
 			c.Fail("C14|success-rejected", in, "%s: %v", in, err)
 		}
